@@ -17,6 +17,7 @@ Step(e) ==
       [] e.op = "EncryptPair"      -> EncryptPair(e.key, e.m, e.pt, e.nested)
       [] e.op = "Swap"             -> Swap
       [] e.op = "Assign"           -> Assign(e.alg, e.p)
+      [] e.op = "BuildDefault"     -> BuildDefault(e.alg, e.p)
       [] e.op = "LoadPlain"        -> LoadPlain(e.alg, e.p)
       [] e.op = "Challenge"        -> Challenge(e.q)
       [] e.op = "SaveLoad"         -> SaveLoad(e.fmt)
